@@ -79,6 +79,7 @@ def sym_diff(a, b):
 def widths_for(uw, wc, rng):
     """prescribed widths: under-filled, exactly filled, inside the 1 % tolerance, over-filled into the face padding, at and beyond the contour"""
     out = [('under-filled', uw * rng.uniform(0.4, 0.95)), ('filled', uw), ('over-filled', uw + (wc - uw) * rng.uniform(0.1, 0.9)),
+           ('a hair under-filled', uw * (1 - rng.choice([2e-4, 7e-4, 5e-3]))), ('a hair over-filled', min(uw * (1 + rng.choice([2e-4, 7e-4, 5e-3])), 0.5 * (uw + wc))),
            ('contour width', wc), ('within tolerance', wc * 1.005), ('beyond', wc * 1.0101), ('beyond', wc * rng.uniform(1.02, 1.6))]
     return out
 
@@ -300,6 +301,45 @@ def explicit_in_width(chk):
         fs.hook.remove_function(fs)
 
 
+def with_form_overwidth(chk):
+    """a width model registered with the context-manager form (`with RollPass.OutProfile.width(f):`) prescribing 20 % more than the contours can contain: the
+    error is reported to the caller of solve (outside the with block, too), and the registration is gone afterwards"""
+    from pyroll.core import Roll, RollPass, ThreeRollPass, Profile, CircularOvalGroove
+    from shapely.geometry import Polygon
+    fs = [RollPass.Profile.flow_stress(lambda self: 50e6), ThreeRollPass.Profile.flow_stress(lambda self: 50e6)]
+    try:
+        for cls, g, d in ((RollPass, CircularOvalGroove(depth=8e-3, r1=6e-3, r2=40e-3), 30e-3),
+                          (ThreeRollPass, CircularOvalGroove(depth=4e-3, r1=3e-3, r2=25e-3, pad_angle=30), 30e-3)):
+            mk = lambda: cls(label="p", roll=Roll(groove=g, nominal_radius=160e-3, rotational_frequency=1), gap=2e-3)      # noqa
+            ip = lambda: Profile.round(diameter=d, temperature=1473.15, strain=0, material="C45", length=1)               # noqa
+            probe = mk()
+            opening = Polygon(np.concatenate([cl.coords for cl in probe.contour_lines.geoms]))
+            limit = (opening.bounds[3] - opening.centroid.y) * 2 if cls is ThreeRollPass else opening.bounds[2] - opening.bounds[0]
+            width = 1.2 * limit
+            rp = mk()
+            chk.cov['evaluations'] += 1
+            reported = False
+            try:
+                with cls.OutProfile.width(lambda self: width):
+                    rp.solve(ip())
+            except Exception:      # noqa  (ValueError, possibly wrapped by the unit)
+                reported = True
+            data = {'pass': cls.__name__, 'width': width, 'contour': limit, 'form': 'with'}
+            if not reported:
+                cs = rp.out_profile.cross_section
+                return chk.fail('overwidth-not-reported', f"{cls.__name__}: a width model registered with `with {cls.__name__}.OutProfile.width(f):` prescribes {width:.6g}, 20 % beyond "
+                                f"the roll contours ({limit:.6g}); solve reports no error and the pass holds a profile {cs.bounds[2] - cs.bounds[0]:.6g} wide", data)
+            rp2 = mk()
+            rp2.solve(ip())
+            uw = float(rp2.usable_width)
+            if abs(float(rp2.out_profile.width) - uw) > 1e-9 * uw:
+                return chk.fail('width', f"{cls.__name__}: after the with block the width model is still in effect (default width {float(rp2.out_profile.width):.6g}, "
+                                f"usable width {uw:.6g})", data)
+    finally:
+        for f in fs:
+            f.hook.remove_function(f)
+
+
 def observed_in_profile(chk):
     """looking at the incoming profile before the solve (its width, height, equivalent rectangle - what a notebook display evaluates), or feeding the
     out profile OBJECT of a solved pass into the next pass, changes nothing: the outgoing width is the prescribed one, by default the usable width"""
@@ -394,6 +434,8 @@ def run(chk):
             two_roll(chk, rng, 'SplineGroove', {'contour_points': pts}, gs)
     if not chk.failures:
         solved_passes(chk, rng)
+    if not chk.failures:
+        with_form_overwidth(chk)
     if not chk.failures:
         observed_in_profile(chk)
     if not chk.failures:
